@@ -584,21 +584,30 @@ def dict_resolver(env):
                     " to select. It will return the proper way to refer to it."
                 )
 
-            try:
-                co = codefind.find_code(*hierarchy, module=module or "__main__")
-            except KeyError:
-                raise CodeNotFoundError(
-                    f"Cannot find a function for the reference '{x}'."
-                    " Try calling `ptera.refstring` on the function you want"
-                    " to select. It will return the proper way to refer to it."
-                )
+            # Another thread may be swapping the code of that function
+            # (a probe being activated or deactivated): look it up while
+            # nothing moves
+            from .overlay import _tooling_lock
 
-            funcs = [
-                fn
-                for fn in codefind.get_functions(co)
-                if inspect.isfunction(fn)
-                and not getattr(fn, "__ptera_discard__", False)
-            ]
+            with _tooling_lock:
+                try:
+                    co = codefind.find_code(
+                        *hierarchy, module=module or "__main__"
+                    )
+                except KeyError:
+                    raise CodeNotFoundError(
+                        f"Cannot find a function for the reference '{x}'."
+                        " Try calling `ptera.refstring` on the function you"
+                        " want to select. It will return the proper way to"
+                        " refer to it."
+                    )
+
+                funcs = [
+                    fn
+                    for fn in codefind.get_functions(co)
+                    if inspect.isfunction(fn)
+                    and not getattr(fn, "__ptera_discard__", False)
+                ]
             if not funcs:  # pragma: no cover
                 raise Exception(f"Reference `{x}` cannot be resolved.")
             elif len(funcs) > 1:  # pragma: no cover
